@@ -116,7 +116,7 @@ class FramingRun:
         self.cid = None
 
 
-def run_framing(msgs, eof, sched, cuts=None, other=None):
+def run_framing(msgs, eof, sched, cuts=None, other=None, greet=False):
     """cuts: None -> the sender uses the real send_message per message (network config chunks);
     otherwise a sorted list of absolute byte positions at which the sender splits its writes.
 
@@ -135,7 +135,8 @@ def run_framing(msgs, eof, sched, cuts=None, other=None):
     sim = Sim(policy, max_decisions=200_000, spin_limit=sched.get('spin_limit', 1000))
     ncfg = sched.get('net', {})
     netw = net.Network(net.NetConfig(nrng, ncfg.get('chunk', 'whole'), ncfg.get('latency', 'const'),
-                                     short_send=ncfg.get('short_send', 0.0)))
+                                     short_send=ncfg.get('short_send', 0.0),
+                                     rst=ncfg.get('rst', False)))
     core.set_current(sim)
     net.set_network(netw)
     from sim import prims
@@ -152,6 +153,10 @@ def run_framing(msgs, eof, sched, cuts=None, other=None):
             conn, _ = srv.accept()
             fr.cid = conn._conn.cid
             mi = MI(connection_socket=conn)
+            if greet:
+                # a line the peer never reads: if the peer then closes, TCP resets the connection
+                # (net.rst) and the receiver meets ConnectionResetError instead of end-of-stream
+                mi.send_message('Bridge table manager ready')
             while True:
                 try:
                     m = mi.receive_message()
@@ -315,6 +320,10 @@ def _account(st, fr, sched, eof_cls, label):
     nc = sched.get('net', {})
     if nc.get('chunk', 'whole') != 'whole':
         st['faults']['chunking.' + nc['chunk']] = st['faults'].get('chunking.' + nc['chunk'], 0) + 1
+    for k, v in sim.fault_counts.items():
+        st['faults'][k] = st['faults'].get(k, 0) + v
+    if isinstance(fr.exc, ConnectionResetError):
+        st['faults']['eof.as-reset'] = st['faults'].get('eof.as-reset', 0) + 1
     # digest of the receiver's view: sequence of recv outcomes
     import hashlib
     h = hashlib.sha1()
@@ -341,7 +350,8 @@ def exec_plan(plan, label):
     if other is not None:
         o = {'msgs': [(m[0], m[1], _t(m[2])) for m in other['msgs']], 'eof': other['eof'],
              'mode': other['mode']}
-    fr = run_framing(msgs, plan['eof'], plan['sched'], cuts=plan.get('cuts'), other=o)
+    fr = run_framing(msgs, plan['eof'], plan['sched'], cuts=plan.get('cuts'), other=o,
+                     greet=bool(plan.get('greet')))
     findings = []
     cov = {'calls': set(), 'cards': set(), 'headers': set(), 'voids': set(), 'hand_sizes': set()}
     check_framing(fr, msgs, plan['eof'], findings, plan, cov)
@@ -399,6 +409,11 @@ def run_task(task):
                              'short_send': rng.choice((0.0, 0.0, 0.3, 0.8))}}
             plan = {'family': 'S4', 'msgs': _plan_msgs(msgs), 'eof': eof, 'sched': sched,
                     'cuts': None}
+            if rng.random() < 0.3:
+                # the receiving end has said something the peer never reads: the peer's close is
+                # then abortive (RST) and the reader meets ConnectionResetError, not end-of-stream
+                plan['greet'] = True
+                sched['net']['rst'] = True
             r = rng.random()
             if r < 0.35:
                 # a second connection in the same process: one that was closed (mostly in the
